@@ -229,8 +229,8 @@ func checkC01(e *Engine, r *Report) {
 		if I != nil && Sh != nil {
 			goals = []vennFact{
 				subset(sxOr(I, Sh), sxOr(sxOr(entry("isolated"), entry("sharable")), E)), // nothing but the grant's own CPUs comes back
-				subset(entry("isolated"), I), subset(entry("sharable"), Sh),              // nothing is lost
-				disjoint(sxDiff(I, entry("isolated")), sxDiff(Sh, entry("sharable"))),    // a returned CPU goes to exactly one of the two sets
+				subset(entry("isolated"), I), subset(entry("sharable"), Sh), // nothing is lost
+				disjoint(sxDiff(I, entry("isolated")), sxDiff(Sh, entry("sharable"))), // a returned CPU goes to exactly one of the two sets
 			}
 		}
 		reportVenn("R11:frame@"+name, "a release returns only the released grant's exclusive CPUs, each to exactly one of isolated/sharable, and removes nothing", fn, ve, nil, goals, I != nil && Sh != nil)
@@ -279,8 +279,8 @@ func checkC01(e *Engine, r *Report) {
 		GI, E := sxBase("IsolatedCPUs(g)"), sxBase("ExclusiveCPUs(g)")
 		var goals []vennFact
 		assume := []vennFact{
-			subset(GI, entry("isolated")),              // guard 1: isolated ∩ GI == GI
-			subset(sxDiff(E, GI), entry("sharable")),   // guard 2: sharable ∩ (E∖GI) == E∖GI
+			subset(GI, entry("isolated")),                  // guard 1: isolated ∩ GI == GI
+			subset(sxDiff(E, GI), entry("sharable")),       // guard 2: sharable ∩ (E∖GI) == E∖GI
 			disjoint(entry("isolated"), entry("sharable")), // invariant at entry
 			subset(GI, E), // IsolatedCPUs() is a subset of the grant's exclusive CPUs
 		}
